@@ -209,14 +209,48 @@ class C20(common.Prop):
             return self.collator.collate_tensors(batch, pad_value=case["pad"])
         return self.collator.pad_tensors(batch, pad_value=case["pad"])
 
+    @staticmethod
+    def longest_len(v):
+        """largest first extent among the tensors of one example (0 when it has none)"""
+        if v["k"] in "MP":
+            return v["shape"][0] if v["shape"] else 0
+        if v["k"] in "DT":
+            return max([C20.longest_len(x[1] if v["k"] == "D" else x) for x in v["items"]] or [0])
+        return 0
+
+    def collate(self, batch, case):
+        e = case["entry"]
+        if e == "zpc":
+            return self.collator.zero_pad_collator(batch)
+        if e == "ct":
+            return self.collator.collate_tensors(batch, pad_value=case["pad"])
+        return self.collator.pad_tensors(batch, pad_value=case["pad"])
+
     def run_impl(self, case):
+        case.pop("_reuse", None)
         try:
-            r = self.call(case)
+            batch = [self.build(v) for v in case["batch"]]
+            r = self.collate(batch, case)
         except Exception as e:  # every rejection is one class
             case["_impl_exc"] = "%s: %s" % (type(e).__name__, str(e)[:160])
             case["_impl"] = "err"
             return "err"
         case["_impl"] = self.canon_out(r)
+        # the SAME example objects collated once more without the longest example: collation must not have changed its inputs,
+        # so the result equals the collation of freshly built copies
+        if len(batch) >= 2:
+            lens = [self.longest_len(v) for v in case["batch"]]
+            keep = [i for i in range(len(batch)) if i != lens.index(max(lens))]
+            try:
+                again = self.canon_out(self.collate([batch[i] for i in keep], case))
+            except Exception as e:
+                again = "err"
+            try:
+                fresh = self.canon_out(self.collate([self.build(case["batch"][i]) for i in keep], case))
+            except Exception as e:
+                fresh = "err"
+            if again != fresh:
+                case["_reuse"] = {"kept": keep, "again": common.small(again, 300), "fresh": common.small(fresh, 300)}
         return case["_impl"]
 
     # ---------------------------------------------------------------------------------- model
@@ -375,6 +409,9 @@ class C20(common.Prop):
         got = case.get("_impl")
         if got is None:
             got = self.run_impl(case)
+        if case.get("_reuse"):
+            return {"clause": "inputs-changed", "what": "collating the same example objects again (examples %s) differs from collating fresh "
+                    "copies of them: the first collation changed its inputs" % case["_reuse"]["kept"], "detail": case["_reuse"]}
         if got == "err":
             return {"clause": "raises", "what": "collating a well-formed homogeneous batch raises %s" % case.get("_impl_exc")}
         return self.check_field(got, exp, "batch")
